@@ -10,6 +10,7 @@ import (
 	"sort"
 	"strconv"
 	"strings"
+	"unicode/utf8"
 )
 
 // Node represents a node in the template parse tree
@@ -422,7 +423,7 @@ func (n *ForNode) renderForLoop(w io.Writer, ctx *RenderContext, seq interface{}
 	case reflect.Map:
 		length = val.Len()
 	case reflect.String:
-		length = val.Len()
+		length = utf8.RuneCountInString(val.String())
 	default:
 		// For other types, try to convert to an interface slice
 		// to support custom iterables
@@ -532,7 +533,9 @@ func (n *ForNode) renderForLoop(w io.Writer, ctx *RenderContext, seq interface{}
 		}
 
 	case reflect.String:
-		for i, char := range val.String() {
+		i := -1
+		for _, char := range val.String() {
+			i++ // position in characters, not bytes
 			// Set the loop variables
 			loopVars["loop"].(map[string]interface{})["index"] = i + 1
 			loopVars["loop"].(map[string]interface{})["index0"] = i
